@@ -15,8 +15,14 @@ from *sessions*; a session is one client connection to the proxy:
   several successive / concurrent sessions on one proxy, `stop()` at arbitrary moments
   (virtual times and step-hook boundaries), counters read at the end.
 
-Every route holds at least one queue (gen/net_gen.py's configurations)."""
-import random
+  directed loss-free families: u* UDP ASSOCIATE (request endpoint address | 0.0.0.0, port | 0) with an
+  echoing target, b* BIND with a third party that reports its own endpoint (`s<i>.local`) and streams
+  of up to 70000 bytes in both directions.
+
+Every route holds at least one queue (gen/net_gen.py's configurations); a world is either lossy
+(droppers, bounded queues: ~20 %) or has no bounded queue at all (the monitor's completeness clauses
+apply exactly there)."""
+import random, re
 from net_gen import Cfg, Prog, ep
 
 PROXY_PORT = 1080
@@ -70,6 +76,13 @@ class World:
         self.cfg = Cfg(rng, nnodes=3 + (1 if nclient_nodes > 1 else 0), nat_p=(0.25 if nat else 0.0),
                        drop_p=(0.3 if lossy else 0.0), v6_p=0.0, multi_p=0.0,
                        small_cap_p=(0.4 if lossy else 0.05), pcap=False)
+        if not lossy:
+            # a loss-free world has no bounded queue at all (the monitor's completeness clauses — every
+            # reply / payload byte arrives, a rejected client sees end-of-file, counters' lower bound, UDP
+            # delivery — are demanded exactly when no hop can lose a packet)
+            self.cfg.lines = [re.sub(r" cap=\d+$", " cap=0", l) if l.startswith("hop ") and " queue " in l else l
+                              for l in self.cfg.lines]
+        self.lossy = lossy
         # the proxy's own address is never behind a NAT (its replies name it)
         self.P = Prog(rng)
         self.cli_ip = "10.0.0.1"; self.px_ip = "10.0.1.1"; self.tg_ip = "10.0.2.1"
@@ -129,7 +142,8 @@ class World:
             ctx = "h%d" % h
             if self.rng.random() < 0.8:
                 body = [self.rng.randrange(256) for _ in range(self.rng.choice([1, 2, 30, 300, 1490, 1500]))]
-                P.do(ctx, "%s.send_to %s data=%s" % (u, ep(self.px_ip, relay_port), hx(body)))
+                rp = relay_port + (self.rng.choice([0, 0, 1]) if getattr(self, "multi", False) else 0)    # (a second association's relay)
+                P.do(ctx, "%s.send_to %s data=%s" % (u, ep(self.px_ip, rp), hx(body)))
         self.udp_tgt = u
         self.have_udp_target = True
         return u
@@ -180,7 +194,8 @@ def session(W, kind, start_ctx="top", cut="rand", spaced=None, mutate=None, payl
     P.do(c, "%s.read_loop h%d cap=%d" % (s, hr, rng.choice([100, 4096, 65536])))
     # target of the request
     name = b""
-    if cmd == 1:
+    if cmd == 1 or (cmd == 3 and atyp == 3):
+        # (UDP ASSOCIATE naming a host in the REQUEST is handled by the proxy as CONNECT to that name)
         port = TPORT if outcome in ("ok", "any") else 8999
         ip = W.tg_ip
         if atyp == 3:
@@ -188,11 +203,15 @@ def session(W, kind, start_ctx="top", cut="rand", spaced=None, mutate=None, payl
             if rng.random() < 0.15 and outcome == "ok": name = rng.choice([b"tgt", b"t2", b"x"])     # short names (<= 3 characters)
             if rng.random() < 0.1 and outcome == "ok": name = W.tg_ip.encode()                     # a literal as a name
             port = TPORT if outcome in ("ok", "any") else (8999 if outcome == "refused" else TPORT)
+            if cmd == 3 and rng.random() < 0.3: port = getattr(W, "udp_cli_port", 4000)      # nobody listens there: refused
     elif cmd == 2:
         ip = W.px_ip; port = BINDPORT + W.nassoc; W.nassoc += 1
         if outcome == "refused": ip = "10.9.9.9"     # not the proxy's address: bind fails
     else:
-        ip = rng.choice([W.cli_ip if node == "n0" else W.cli2_ip, "0.0.0.0"]); port = getattr(W, "udp_cli_port", 4000)
+        # the endpoint the client will send its datagrams from: address or 0.0.0.0 (= the TCP connection's),
+        # port or 0 (= learnt from the first datagram that arrives from that address)
+        ip = rng.choice([W.cli_ip if node == "n0" else W.cli2_ip, "0.0.0.0"])
+        port = getattr(W, "udp_cli_port", 4000) if rng.random() < 0.65 else 0
     greet = [5, 1, 0] if rng.random() < 0.7 else [5, 2, rng.choice([1, 2]), 0]
     req = request(ver, cmd, atyp, ip, port, name)
     data = (greet if ver == 5 else []) + req
@@ -242,6 +261,8 @@ def third_party(W, port, at, stream_total):
     P.do("top", "%s.new n2" % s); P.do("top", "%s.open v4" % s)
     h = P.h()
     P.do(P.at(at), "%s.connect %s h%d" % (s, ep(W.px_ip, port), h))
+    # its own endpoint: what the proxy's second BIND reply must name (the monitor reads it here)
+    P.do("h%d" % h, "%s.local" % s)
     hr = P.h()
     P.do("h%d" % h, "%s.read_loop h%d cap=%d" % (s, hr, rng.choice([1475, 4096, 65536])))
     if stream_total:
@@ -332,7 +353,11 @@ def add_peers(W, kind, reply_total=None):
         W.listener(reply_total=rng.choice([0, 1, 100, 5000, 70000]) if reply_total is None else reply_total,
                    close_after=rng.random() < 0.3)
     if cmd == 2 and outcome == "ok":
-        third_party(W, BINDPORT + W.nassoc, rng.choice([3000000000, 3500000000]), rng.choice([0, 10, 3000]))
+        third_party(W, BINDPORT + W.nassoc, rng.choice([3000000000, 3500000000]), rng.choice([0, 10, 3000, 3000, 70000]))
+    if cmd == 3 and atyp == 3:
+        if not W.have_listener:
+            W.listener(reply_total=rng.choice([0, 1, 100, 5000]) if reply_total is None else reply_total, close_after=rng.random() < 0.3)
+        if rng.random() < 0.7: return       # else: UDP peers too, whose relay port never opens
     if cmd == 3:
         if not W.have_udp_target: W.udp_target(echo=rng.choice([1, 2, 4]), relay_port=W.relay_base)
         relay_port = W.relay_base + getattr(W, "nassoc_udp", 0)
@@ -353,8 +378,8 @@ def add_peers(W, kind, reply_total=None):
 
 def scn_valid(rng, sid, ver=None, kind=None, cut="rand", **kw):
     ver = ver or rng.choice([4, 5, 5])
-    kind = kind or rng.choice(KINDS4 if ver == 4 else KINDS5)
-    flags = rng.choice([0, 0, 0, 1, 2, 3]) if kind[0] == 3 else 0
+    kind = kind or rng.choice(KINDS4 if ver == 4 else KINDS5 + [(3, 1, "ok"), (2, 1, "ok")])
+    flags = rng.choice([0, 0, 0, 0, 1, 2, 3]) if kind[0] == 3 else 0
     W = base_world(rng, ver, flags=flags)
     add_peers(W, kind)
     session(W, kind, cut=cut, **kw)
@@ -377,18 +402,45 @@ def scn_malformed(rng, sid, ver=None, pos=None, val=None, how=None, tail=None):
 def scn_multi(rng, sid):
     ver = rng.choice([4, 5, 5])
     W = base_world(rng, ver)
+    W.multi = True
     kinds = KINDS4 if ver == 4 else KINDS5
     W.listener(reply_total=rng.choice([0, 50, 3000]), naccept=5)
     n = rng.choice([2, 3, 4])
+    two_assoc = ver == 5 and rng.random() < 0.2       # two UDP associations on one proxy (relay ports handed out in turn)
     for i in range(n):
         kind = rng.choice(kinds)
-        if kind[0] == 3 and getattr(W, "nassoc_udp", 0) >= 1: kind = (1, 1, "ok")
+        if two_assoc and i < 2: kind = (3, 1, "ok")
+        if kind[0] == 3 and getattr(W, "nassoc_udp", 0) >= 2: kind = (1, 1, "ok")
         add_peers(W, kind)
         start = "top" if rng.random() < 0.5 else W.P.at(rng.choice([0, 2000000, 50000000, 400000000, 900000000]))
         mut = mutator(rng) if rng.random() < 0.35 else None
         session(W, kind, start_ctx=start, mutate=mut, pipelined=True if mut else None,
                 payload=rng.choice([0, 5, 100, 3000]))
     finish(W, stop=rng.choice([None, "time", "time", "step"]))
+    return W.text(sid)
+
+
+def scn_udp(rng, sid):
+    """UDP ASSOCIATE on a loss-free, NAT-free world with a client that keeps its TCP connection open: the
+    scenarios on which the monitor demands DELIVERY (every well-formed client datagram reaches the target
+    named in its header; every reply comes back wrapped). Request endpoint: address or 0.0.0.0, port or 0."""
+    W = base_world(rng, 5, flags=rng.choice([0, 0, 0, 2]), lossy=False, nat=False)
+    add_peers(W, (3, 1, "ok"))
+    session(W, (3, 1, "ok"), cut=rng.choice(["none", "rand"]), close=False, pipelined=rng.random() < 0.3)
+    finish(W, stop=rng.choice([None, None, "time"]))
+    return W.text(sid)
+
+
+def scn_bind(rng, sid):
+    """BIND on a loss-free, NAT-free world, the client sending its payload only after the second reply and
+    nobody closing: second reply (names the third party's endpoint) and relay in both directions are
+    demanded completely. Streams up to 70000 bytes each way (more than one 64 KiB buffer)."""
+    ver = rng.choice([4, 5])
+    W = base_world(rng, ver, lossy=False, nat=False)
+    third_party(W, BINDPORT + W.nassoc, rng.choice([3000000000, 3500000000]), rng.choice([0, 10, 3000, 20000, 70000]))
+    session(W, (2, 1, "ok"), cut=rng.choice(["none", "rand"]), close=False, pipelined=False,
+            payload=rng.choice([0, 1, 48, 1475, 5000, 20000, 70000]))
+    finish(W, stop=rng.choice([None, None, "time"]))
     return W.text(sid)
 
 
@@ -432,16 +484,21 @@ def generate(seed, tier):
     rng = random.Random(seed * 7368787 + 17)
     out = []
     if tier == "quick":
-        nv, nm, nmu = 500, 350, 180
+        nv, nm, nmu, nd = 500, 350, 180, 50
         out += all_cuts(rng, 4) + all_cuts(rng, 5) + field_mutations(rng, 4) + field_mutations(rng, 5)
     else:
-        nv, nm, nmu = 12000, 9000, 5000
+        nv, nm, nmu, nd = 12000, 9000, 5000, 800
         for _ in range(4):
             out += all_cuts(rng, 4) + all_cuts(rng, 5) + field_mutations(rng, 4) + field_mutations(rng, 5)
-    for i in range(nv): out.append(scn_valid(rng, "v%d" % i))
-    for i in range(nm): out.append(scn_malformed(rng, "m%d" % i))
-    for i in range(nmu): out.append(scn_multi(rng, "x%d" % i))
-    return out
+    rest = []
+    for i in range(nv): rest.append(scn_valid(rng, "v%d" % i))
+    for i in range(nm): rest.append(scn_malformed(rng, "m%d" % i))
+    for i in range(nmu): rest.append(scn_multi(rng, "x%d" % i))
+    for i in range(nd): rest.append(scn_udp(rng, "u%d" % i))
+    for i in range(nd): rest.append(scn_bind(rng, "b%d" % i))
+    # families differ a lot in cost (64 KiB streams): mix them so that the batches run in parallel are alike
+    random.Random(seed).shuffle(rest)
+    return out + rest
 
 
 if __name__ == "__main__":
